@@ -246,6 +246,8 @@ impl Server {
             let engine = Arc::new(AofEngine::new(config.aof.clone()));
             engine.init()?;
             engine.load(&storage)?;
+            // Expiry changes the dataset: have the storage engine report the keys it removes (see log_expired_keys)
+            storage.track_expired_keys(true);
             Some(engine)
         } else {
             None
@@ -375,6 +377,9 @@ impl Server {
             #[cfg(feature = "verif")]
             crate::verif::LOOP_ITERATIONS.fetch_add(1, Ordering::SeqCst);
             
+            // Keys removed by the expiry sweeper since the last iteration go into the AOF
+            self.log_expired_keys();
+            
             // Process wake-up queue first (very fast, lock-free)
             did_work |= self.process_wakeups()?;
             
@@ -485,6 +490,20 @@ impl Server {
             RespFrame::from_bytes(key.to_vec()),
         ];
         self.log_effect(db, &entry);
+    }
+    
+    /// An expiry changes the dataset like a DEL and is logged as one: `DEL key` for every key the storage engine has
+    /// removed since the last call because its time to live had elapsed (lazily, when a command looked at it, or by
+    /// the sweeper). At the end of a command this also releases the entries the command held back, after these.
+    fn log_expired_keys(&self) {
+        if let Some(aof) = &self.aof_engine {
+            let entries: Vec<(usize, Vec<RespFrame>)> = self.storage.take_expired_keys().into_iter()
+                .map(|(db, key)| (db, vec![RespFrame::from_string("DEL"), RespFrame::from_bytes(key)]))
+                .collect();
+            if let Err(e) = aof.end_command(&entries) {
+                eprintln!("Failed to append to AOF: {}", e);
+            }
+        }
     }
     
     /// Append an entry that stands for the effect of a command (see `is_logged_by_effect`, `log_blocking_pop`)
@@ -1468,9 +1487,14 @@ impl Server {
             None
         };
         
-        // Log to AOF for write commands (those logged by their effect are appended once the outcome is known)
+        // Log to AOF for write commands (those logged by their effect are appended once the outcome is known).
+        // The entries of this command are held back until it is over (end_command below): a key that turns out to
+        // have expired when the command looks at it is removed first, so its DEL has to precede the command
         let logged_by_effect = Self::is_logged_by_effect(&command_name, parts);
         if let Some(aof) = &self.aof_engine {
+            if let Err(e) = aof.begin_command() {
+                eprintln!("Failed to append to AOF: {}", e);
+            }
             if self.is_write_command(&command_name) && !logged_by_effect {
                 if let Err(e) = aof.append_command_in_db(db, parts) {
                     eprintln!("Failed to append to AOF: {}", e);
@@ -1805,6 +1829,9 @@ impl Server {
                 }
             }
         }
+        
+        // The command is over: what expired before or while it ran goes first, then its own entries
+        self.log_expired_keys();
         
         // Auto-save change recording - always enabled (independent of monitoring)
         if self.is_write_command(&command_name) {
